@@ -197,6 +197,14 @@ def persist_rule(rep, prog, cfg):
                          "core::mem::take", "core::mem::replace") for n in ns) and t["args"]:
                 if ref_field_of_local(b, op_local(t["args"][0])) == buf:
                     bad.append(ns[0])
+        # replacing the buffer wholesale or resetting the byte count to a constant discards what is buffered
+        for bb, i, st in b.stmts():
+            if st["k"] == "assign" and st["place"]["p"]:
+                f = last_named_field(st["place"])
+                if f == buf and not any(isinstance(e, dict) and ("idx" in e or "cidx" in e or "sub" in e) for e in st["place"]["p"]):
+                    bad.append("assignment to %s" % buf)
+                elif f is not None and f != buf and f in ("total_received",) and st["rv"]["k"] == "use" and op_const(st["rv"]["op"]) is not None:
+                    bad.append("%s = constant" % f)
         rep.check(not bad, rule, "%s/%s does not discard buffered bytes" % (cfg, fl_name), b.loc(b.span),
                   "receive itself removes bytes from the persistent buffer (%s); only the parser may consume, and only what it parsed" % bad)
         # the response builder is created per call with the connection's field cache; state local: see C04.cancel-safe
